@@ -1503,6 +1503,14 @@ def run(ctx):
         spec_fail += bad_mel
     n_eval += n_mel
     ctx.cov["mapped_element_programs"] = n_mel
+    n_cel, bad_cel = check_closure_elements(ctx, binary, base)
+    n_fmu, bad_fmu = check_filter_mutation(ctx, binary, base)
+    if bad_cel or bad_fmu:
+        spec_found = True
+        spec_fail += bad_cel + bad_fmu
+    n_eval += n_cel + n_fmu
+    ctx.cov["closure_element_programs"] = n_cel
+    ctx.cov["filter_mutation_programs"] = n_fmu
     class_mismatch = [r for r in res if r.get("compiled") and r.get(which + "_ok") and not r.get(which + "_class_ok")]
     ctx.cov["failure_class_mismatches"] = len(class_mismatch)
     ctx.cov["failure_class_mismatch_examples"] = [{"program": r["text"][-300:], "model": r["model"][which]["fail"], "rc": r["rc"], "stderr": r["stderr"][:200]}
@@ -1687,6 +1695,95 @@ def check_mapped_elements(ctx, binary, base):
                     "observed_stderr_tail": (so + se)[-400:] if refused else se[-300:], "how": "save `program` as x.ms in an empty directory and run `mscript run x.ms -q`"})
     return len(MAPPED_ELEMENT_CASES), bad
 
+
+# --------------------------------------------------------------------------- closures as elements and keys
+
+# A list may hold function values and a map may be keyed by them (the type checker accepts `index_of`, list `==` and the key
+# type).  Two closures made by two runs of one factory are two values (they return different results / own different state):
+# the sequence [c1, c2] finds c2 at 1, differs from [c2, c1], and a finite map assigned under c1 and under c2 has two
+# entries.  One closure under two names, a capture-free function and a closure read back from the list are ONE value each.
+MK2 = "mk = fn(n: int) -> fn() -> int {\n  return fn() -> int {\n    return n\n  }\n}\nc1 = mk(1)\nc2 = mk(2)\n"
+CTR = "mk = fn() -> fn() -> int {\n  c = 0\n  return fn() -> int {\n    modify c = c + 1\n    return c\n  }\n}\na = mk()\nb = mk()\n"
+CLOSURE_ELEMENT_CASES = [
+    ("index_of", MK2 + "l: [fn() -> int...] = [c1, c2]\ni = get l.index_of(c2)\nprint i\ng = l[i]\nprint g()\nprint get l.index_of(c1)\n", ["1", "2", "0"]),
+    ("index_of", MK2 + "c3 = mk(1)\nl: [fn() -> int...] = [c1, c2]\nprint l.index_of(c3)\nl.push(c3)\nprint l.index_of(c3)\n", ["nil", "2"]),
+    ("eq", MK2 + "l: [fn() -> int...] = [c1, c2]\nprint l == [c2, c1]\nprint l == [c1, c2]\nr: [fn() -> int...] = [c2, c1]\nr.reverse()\nprint l == r\nprint l == [c1, c1]\n", ["false", "true", "true", "false"]),
+    ("map-key", MK2 + "m = map[fn() -> int, str] { }\nm[c1] = \"one\"\nm[c2] = \"two\"\nprint m.len()\nprint m[c1]\nprint m[c2]\nprint m.contains_key(c2)\nprint m.remove(c1)\nprint m.len()\nprint m[c2]\nprint m.contains_key(c1)\n",
+     ["2", "one", "two", "true", "one", "1", "two", "false"]),
+    ("map-key", MK2 + "m = map[fn() -> int, int] { }\nm[c1] = 1\nprint m.contains_key(c2)\nprint m[c2]\nprint m.replace(c2, 5)\nprint m.len()\nm[c1] += 10\nprint m[c1]\nprint m[c2]\n", ["false", "nil", "nil", "2", "11", "5"]),
+    ("map-key", "mk = fn(n: int) -> fn() -> int {\n  return fn() -> int {\n    return n\n  }\n}\nks: [fn() -> int...] = []\nm = map[fn() -> int, int] { }\nfrom 0 to 6, i {\n  k = mk(i)\n  ks.push(k)\n  m[k] = i * 10\n}\nprint m.len()\nfrom 0 to 6, i {\n  print m[ks[i]]\n}\nprint m.keys().len()\n",
+     ["6", "0", "10", "20", "30", "40", "50", "6"]),
+    ("index_of", CTR + "l: [fn() -> int...] = [a, b]\na()\na()\nprint l.index_of(b)\nh = l[1]\nprint h()\nprint a()\nprint l == [b, a]\n", ["1", "1", "3", "false"]),
+    # the SAME closure under two names, a function that captures nothing, a closure read back from the list: one value each
+    ("same-value", MK2 + "c3 = c1\nl: [fn() -> int...] = [c2, c1]\nprint l.index_of(c3)\nprint l == [c2, c3]\nf = fn() -> int {\n  return 7\n}\nfl: [fn() -> int...] = [c1, f]\nprint fl.index_of(f)\ne = fl[1]\nprint fl.index_of(e)\nm = map[fn() -> int, int] { }\nm[c1] = 1\nm[c3] = 2\nm[f] = 3\nprint m.len()\nprint m[c1]\nprint m[e]\n",
+     ["1", "true", "1", "1", "2", "2", "3"]),
+    ("same-value", CTR + "a2 = a\nl: [fn() -> int...] = [b, a]\na()\nprint l.index_of(a2)\nm = map[fn() -> int, int] { }\nm[a] = 1\na()\nm[a2] = 2\nprint m.len()\nprint m[a]\n", ["1", "1", "2"]),
+    ("index_of", "l: [int...] = [1, 2, 3]\nfs = l.map(fn(x: int) -> fn() -> int {\n  return fn() -> int {\n    return x * 10\n  }\n})\ng = fs[2]\nprint fs.index_of(g)\nh = fs[1]\nprint fs.index_of(h)\nprint fs == [fs[0], h, g]\nprint fs == [g, h, g]\n", ["2", "1", "true", "false"]),
+]
+
+
+
+def check_closure_elements(ctx, binary, base):
+    res = programs.pmap(lambda c: run_impl(binary, base, c[1]), CLOSURE_ELEMENT_CASES)
+    bad = 0
+    for (op, text, exp), (rc, so, se) in zip(CLOSURE_ELEMENT_CASES, res):
+        got = out_lines(so)
+        if rc == 0 and got == exp:
+            continue
+        bad += 1
+        if not compiled(rc, so, se):
+            ctx.report("generator:program-rejected", "a closure-element program was rejected by the compiler: %s" % (so + se)[-300:],
+                       {"program": text, "stderr": (so + se)[-900:]}, found_input=False)
+            continue
+        ctx.report("closures-of-one-factory-are-one-value",
+                   "function values as list elements / map keys (%s): closures are told apart by their code only, not by the variables they captured; %s; rc %d"
+                   % (op, diff_msg(exp, got), rc),
+                   {"operation": op, "program": text, "expected_stdout_lines(specification)": exp, "observed_stdout_lines": got, "observed_rc": rc,
+                    "observed_stderr_tail": se[-300:], "how": "save `program` as x.ms in an empty directory and run `mscript run x.ms -q`"})
+    return len(CLOSURE_ELEMENT_CASES), bad
+
+
+# --------------------------------------------------------------------------- filter with a callback that changes the list
+
+# `filter` keeps the elements for which the callback answered true.  A callback may change the list it is filtering (remove,
+# overwrite, reverse, push): whatever walk over the changing list the implementation makes, every element of the result is
+# a value the callback was GIVEN and accepted -- the program records those itself (`acc`) and compares.
+FHEAD = "seen: [int...] = []\nacc: [int...] = []\n"
+def _fprog(init, cond, action, keep):
+    return ("l: [int...] = %s\n" % init + FHEAD + "r = l.filter(fn(x: int) -> bool {\n  seen.push(x)\n  if %s {\n    %s\n  }\n  k = %s\n  if k {\n    acc.push(x)\n  }\n  return k\n})\nprint r == acc\nprint r.len() == acc.len()\n" % (cond, action, keep))
+FILTER_MUTATION_CASES = [
+    ("remove-front", _fprog("[1, 2, 3]", "x == 1", "l.remove(0)", "x != 2"), ["true", "true"]),
+    ("remove-front", _fprog("[1, 2, 3, 4, 5]", "x == 3", "l.remove(0)", "x % 2 == 1"), ["true", "true"]),
+    ("remove-later", _fprog("[1, 2, 3, 4]", "x == 1", "l.remove(2)", "x < 3"), ["true", "true"]),
+    ("overwrite-current", _fprog("[1, 2, 3]", "x == 1", "l[0] = 99", "x == 1"), ["true", "true"]),
+    ("overwrite-current", _fprog("[1, 2, 3]", "x < 100", "l[seen.len() - 1] = x + 100", "x % 2 == 1"), ["true", "true"]),
+    ("reverse", _fprog("[1, 2, 3]", "x == 1", "l.reverse()", "x % 2 == 1"), ["true", "true"]),
+    ("push", _fprog("[1, 2, 3]", "x == 1", "l.push(5)", "x % 2 == 1"), ["true", "true"]),
+    ("op-assign-current", _fprog("[1, 2, 3]", "x == 2", "l[1] *= 50", "x == 2"), ["true", "true"]),
+    ("untouched-control", _fprog("[1, 2, 3]", "x == 9", "l.push(5)", "x != 2"), ["true", "true"]),
+]
+# lists as elements stay shared with the filtered list (the kept element is the element, not a copy)
+FILTER_MUTATION_CASES.append(("shared-element", "ll: [[int...]...] = [[1], [2], [3]]\nr = ll.filter(fn(q: [int...]) -> bool {\n  return q[0] != 2\n})\nrow = r[1]\nrow.push(9)\nprint ll\nprint r\n", ["[[1], [2], [3, 9]]", "[[1], [3, 9]]"]))
+
+
+def check_filter_mutation(ctx, binary, base):
+    res = programs.pmap(lambda c: run_impl(binary, base, c[1]), FILTER_MUTATION_CASES)
+    bad = 0
+    for (how, text, exp), (rc, so, se) in zip(FILTER_MUTATION_CASES, res):
+        got = out_lines(so)
+        if rc == 0 and got == exp:
+            continue
+        bad += 1
+        if not compiled(rc, so, se):
+            ctx.report("generator:program-rejected", "a filter program was rejected by the compiler: %s" % (so + se)[-300:],
+                       {"program": text, "stderr": (so + se)[-900:]}, found_input=False)
+            continue
+        ctx.report("filter-keeps-element-it-never-tested",
+                   "`filter` whose callback changes the list (%s): the result is not the sequence of the elements the callback accepted; %s; rc %d"
+                   % (how, diff_msg(exp, got), rc),
+                   {"mutation": how, "program": text, "expected_stdout_lines(specification)": exp, "observed_stdout_lines": got, "observed_rc": rc,
+                    "observed_stderr_tail": se[-300:], "how": "save `program` as x.ms in an empty directory and run `mscript run x.ms -q`"})
+    return len(FILTER_MUTATION_CASES), bad
 
 
 def first_diff_op(r):
